@@ -41,8 +41,39 @@ def solve_obligation(o, timeout_s=10, dump_dir=None, inputs=None,
                 f.write(s.to_smt2().replace('(set-info :status unknown)\n', ''))
         except Exception:
             smt2 = None
-    r = s.check()
+    r = z3.unknown
+    strategy = 'all'
+    if o.kind != 'canary':
+        # goal-directed pruning: a proof from a subset of the hypotheses is a
+        # proof.  Quantified hypotheses that share no symbol with the goal
+        # (transitively, `depth` steps) are left out first.
+        cands = []
+        gs = symbols(o.goal)
+        if not any(n.startswith(('sum!', 'count!')) for n in gs):
+            # the goal does not speak about recursive sums: leave the sum
+            # definitions, unfoldings and sum lemmas out
+            cands.append(('no-sum-facts', [h for h in o.hyps if not any(
+                n.startswith(('sum!', 'count!')) for n in symbols(h))]))
+        for depth in (1, 2):
+            cands.append(('relevant-hyps(depth %d)' % depth,
+                          relevant_hyps(o.hyps, o.goal, depth)))
+        for label, sub in cands:
+            if sub is None or len(sub) == len(o.hyps):
+                continue
+            depth = label
+            sp = _solver(int(min(timeout_s, 4) * 1000))
+            for a in C.str_axioms(): sp.add(a)
+            for h in sub: sp.add(h)
+            sp.add(z3.Not(o.goal))
+            if sp.check() == z3.unsat:
+                r = z3.unsat
+                strategy = '%s: %d of %d hypotheses' % (
+                           label, len(sub), len(o.hyps))
+                break
+    if r != z3.unsat:
+        r = s.check()
     o.backend = 'z3-%s' % z3.get_version_string()
+    o.strategy = strategy
     if r == z3.unsat:
         o.status = 'discharged'
     elif r == z3.sat:
@@ -88,6 +119,55 @@ def solve_obligation(o, timeout_s=10, dump_dir=None, inputs=None,
     o.time_s = time.time() - t0
     o.smt2 = smt2
     return o
+
+
+_sym_cache = dict()
+
+
+def symbols(e):
+    """names of the uninterpreted constants / functions occurring in e"""
+    k = e.get_id()
+    if k in _sym_cache:
+        return _sym_cache[k]
+    out, todo, seen = set(), [e], set()
+    while todo:
+        x = todo.pop()
+        i = x.get_id()
+        if i in seen: continue
+        seen.add(i)
+        if z3.is_quantifier(x):
+            todo.append(x.body()); continue
+        if z3.is_app(x):
+            d = x.decl()
+            if d.kind() == z3.Z3_OP_UNINTERPRETED:
+                n = d.name()
+                if not n.startswith('str!') or n.startswith('str!fmt'):
+                    out.add(n)
+            todo.extend(x.children())
+    _sym_cache[k] = out
+    return out
+
+
+def relevant_hyps(hyps, goal, depth):
+    from .symexec import has_quant
+    rel = set(symbols(goal))
+    chosen = [False] * len(hyps)
+    quant = [has_quant(h) for h in hyps]
+    for _ in range(depth):
+        added = False
+        for i, h in enumerate(hyps):
+            if chosen[i] or not quant[i]:
+                continue
+            hs = symbols(h)
+            if hs & rel:
+                chosen[i] = True
+                added = True
+        for i, h in enumerate(hyps):
+            if chosen[i]:
+                rel |= symbols(h)
+        if not added:
+            break
+    return [h for i, h in enumerate(hyps) if chosen[i] or not quant[i]]
 
 
 def run_cvc5(path, timeout_s):
